@@ -3179,6 +3179,10 @@ func (bc *Blockchain) IsTxStillRelevant(t *transaction.Transaction, txpool *memp
 	if err := bc.verifyTxAttributes(bc.dao, t, isPartialTx); err != nil {
 		return false
 	}
+	// Signers can be blocked by the block that has just been processed.
+	if bc.policy.CheckPolicy(bc.dao, t) != nil {
+		return false
+	}
 	for i := range t.Scripts {
 		if !scparser.IsStandardContract(t.Scripts[i].VerificationScript) {
 			recheckWitness = true
